@@ -544,6 +544,10 @@ def run(chk):
                 return {"cls": v["cls"], "attrs": [[a, _nopos(x)] for a, x in v["attrs"]]}
             if "l" in v:
                 return {"l": [_nopos(x) for x in v["l"]]}
+            if "ref" in v:          # pending reference of Build.v: name and class, not its position
+                return {"ref": _nopos(v["ref"]), "refcls": v.get("refcls")}
+            if "refto" in v:        # resolved reference of the implementation: target name and class
+                return {"refto": {"name": v["refto"].get("name"), "cls": v["refto"].get("cls")}}
         return v
 
     for (ci, ri, mi), bv in zip(sample, bvals):
